@@ -1,5 +1,6 @@
 import Lc.Driver.Util
 import Lc.Model.StageLine
+import Lc.Model.StageGlob
 import Lc.Spec.Chmod
 import Lc.Spec.AddFiles
 
@@ -9,6 +10,25 @@ import Lc.Spec.AddFiles
 -/
 namespace Lc.Driver.C17
 open Lean Lc Lc.Driver Lc.StageLine Lc.Spec
+
+/-- cross-check of the model with the root and the cuts (`Lc/Model/StageGlob.lean`) against the
+    root-free expansion `applyEntry` uses: for every accepted wildcard line without `src=` the
+    names cut off the host paths (host path = `path.Join(root, stage name)`) are the names
+    `globTree` gives — adds (`file`/`dir`) and `omit` alike -/
+def globModelEq (root : Bytes) (t : Tree) (lines : List Bytes) : Bool :=
+  let ht := StageGlob.hostOf root t
+  lines.all fun line =>
+    let l := trimAscii line
+    if l.isEmpty || l.head? == some 35 || hasPrefix l [47, 47] then true
+    else match parseLine l with
+      | .error _ => true
+      | .ok r =>
+        let e := r.entry
+        if !r.errors.isEmpty || !e.hasWildcard || !e.source.isEmpty then true
+        else if r.adding then
+          StageGlob.wildcardNames ht root e.name (e.ltype == ftDir) ==
+            StageGlob.toSet (globTree t e.name (e.ltype == ftDir))
+        else StageGlob.removeNames ht root e.name == StageGlob.toSet (globTree t e.name false)
 
 def jn (n : Nat) : Json := Json.num (JsonNumber.fromNat n)
 def jstrs (l : List String) : Json := Json.arr (l.map Json.str).toArray
@@ -245,7 +265,11 @@ def handle (op : String) (j : Json) : Option Json :=
     let holds := implCls != "panic" && getBool impl "located" &&
       getObj impl "names" == getObj spec "names" && errLines impl == errLines spec
     let esc := lines.any fun l => indexOf l [92, 42] != none
+    -- the root of the case: "/" when the stage names are host paths, else any other root
+    let globEq := globModelEq (if getBool j "slashroot" then b!"/" else b!"/r") t lines
     some (obj ([("model", model), ("holds", Json.bool holds), ("expected", spec),
+               ("glob_model_eq", Json.bool globEq)] ++
+               (if globEq then [] else [("harness_ok", Json.bool false)]) ++ [
                ("tags", tagsJ (["userlist"] ++ (if esc then ["userlist:escaped-star"] else []) ++
                  (if lines.any (fun l => hasPrefix (trimAscii l) b!"omit" && l.contains 42) then ["userlist:omit-wild"] else []) ++
                  (if lines.any (fun l => !hasPrefix (trimAscii l) b!"omit" && l.contains 42) then ["userlist:add-wild"] else []))) ] ++
